@@ -22,24 +22,42 @@ from concurrent.futures import ThreadPoolExecutor
 from pathlib import Path
 
 MANIFEST = dict(
-    text=("Lean theorems about an instrumented cost semantics (`BS.Depth`: loops cost 0, a call costs 1 + its callee, a structural "
-          "==/!= between tags costs eqDepth) that follows the call graph of bs4: for all trees, receivers and ancestor contexts the "
-          "repaired accounting of parse (feed/_popToTag/popTag with its == on the preserve/string-container stacks: the structural "
-          "branch is proved unreachable), decode/encode/prettify/str/hash, copy/deepcopy, pickling a document, get_text/strings, "
-          ".string, every find_* family incl. find_all(name, string=), and every editing call (extract, insert, append, extend, "
-          "replace_with, wrap, unwrap, insert_before/after, clear, decompose, smooth, string setter, index) is bounded by an explicit "
-          "constant (depth_bounded_*); and witness theorems that the unrepaired accountings are unbounded on explicit families "
-          "(decodeOld/deepcopyOld on a chain with trailing text or a trailing sibling at every level, .string/find_all(name,string=)/"
-          "smooth/_is_xml on a chain, pickling a linked root). Tie (measurement, not proof): max Python call depth under sys.setprofile "
-          "of ~110 operations x 16 fixed + seeded random shape families (hand-linked and parsed) at depths 50..400 must not grow (<= 3), the same family beyond the recursion limit "
-          "must not raise RecursionError, and the measured growth must equal the growth the Lean accounting computes for the same tree."),
+    text=("Lean theorems about an instrumented cost semantics (`BS.Depth`: a loop costs the deepest of its iterations, a call one frame "
+          "plus its callee, a structural ==/!= between tags costs eqDepth) that follows the call graph of bs4. REFINEMENT of the main "
+          "anchor: the statement-by-statement mirror of `_event_stream` (loop + explicit tag stack, both the self_and_descendants form "
+          "and the descendants form used by decode_contents/__deepcopy__/hidden receivers) yields exactly the recursive skeleton and its "
+          "deepest comparison IS the recursive characterisation evCmp the accountings use (event_stream_refines_skeleton, "
+          "event_stream_deepest_comparison, event_stream_contents_refines, event_stream_identity_makes_no_call). PARSE: for every "
+          "tokenizer event sequence and every pair of builder tables (overlapping or not) the side stacks are the tag stack filtered "
+          "by name, so popTag's == never recurses (depth_bounded_parse, for any cost of that recursion), and after _feed nothing is "
+          "left on the parser stacks (after_parse_no_tree_object); field-level mirror of BeautifulSoup.__dict__/__getstate__: the "
+          "pickled state holds no tree object (getstate_fields_hold_no_tree_object, pickled_state_has_no_tree_object, "
+          "depth_bounded_pickle). For all trees, receivers, ancestor contexts, queries and argument lists: decode/encode/prettify/str/"
+          "hash/*_contents, copy/deepcopy, get_text/strings/.string, every find_* family incl. string= (the .string getter is read "
+          "exactly where matches_tag's earlier exits are passed: matching_reads_string_only_where_reached), and every editing call "
+          "(parametrised by the cost of an 'are these the same object' test; bounded for identity tests) are bounded by explicit "
+          "constants, all below the generated sys.getrecursionlimit() (handled_beyond_the_recursion_limit). DEPENDENCE/witness theorems: "
+          "the unrepaired forms grow linearly on explicit families (!= in _event_stream, recursive .string/smooth/_is_xml, links kept "
+          "by __getstate__), and so do the variants 'only the outermost <pre> is pushed', 'elif in popTag', '== instead of is in "
+          "replace_with/index'. TIE: (1) max call depth under sys.setprofile of ~150 operations (incl. editing histories with near "
+          "copies as arguments/siblings, parse under 4 builder configurations, the pure-Python pickler) x ~45 shape families at "
+          "depths 50/100/200 (+400/800) must not grow and must survive depth 3000 (6000) with the default recursion limit, and must "
+          "equal the growth the Lean accounting computes for the same tree; (2) differential streams against the real code: "
+          "_event_stream events on random bushy trees vs mirror and skeleton; __dict__/__getstate__() field classes vs the mirror "
+          "over parse/insert/copy/unpickle histories and configurations; which tags' .string a search reads vs the mirror of "
+          "matches_tag; (3) runtime oracles of the proof invariants on the running parser (side stacks = filtered tag stack; "
+          "after-parse state free of tree objects)."),
     design="7/C11",
     note=("PARTIAL by nature: the theorems are about an accounting of the code's call graph; that the accounting matches CPython is "
-          "measured (growth between d and 2d, warm-up first, threshold 3; absolute depths are never compared). The html.parser "
-          "tokenizer, soupsieve (select) and the C pickler are outside the accounting: parse and pickle are measured end to end, "
-          "select is recorded only. `a == b`, `x in tag` (list containment uses ==) and pickling a single Tag (default pickling walks "
-          "the links) are inherently recursive, not in the property's list of operations: recorded, never flagged."),
-    technique="Lean 4 proof over an instrumented call-depth semantics + sys.setprofile measurement at d/2d/beyond the recursion limit (subprocess-isolated)",
+          "measured (growth between depths, warm-up first, threshold 3 — for the inhomogeneous seeded shapes one frame per 8 levels; "
+          "absolute depths are never compared). Leaf helpers that never receive a tree-navigating argument (formatter, constructors, "
+          "html.parser's tokenizer, MatchRule) are constants of the accounting; the C pickler is modelled as 'walks every element "
+          "reachable from a tree object in the state' and measured with the pure-Python pickler; soupsieve (select) is recorded only. "
+          "The pointer guards inside extract/_insert (previous_element is not next_element, new_child.parent is self) are identity "
+          "tests the accounting does not parametrise: they are exercised by the near-copy/twin histories only. `a == b`, `x in tag` "
+          "and pickling a single Tag are inherently recursive, not in the property's list: recorded (eq_copy doubles as positive "
+          "control), never flagged."),
+    technique="Lean 4 refinement + invariant proofs over an instrumented call-depth semantics; sys.setprofile measurement at several depths and beyond the recursion limit (subprocess-isolated); differential streams (events, pickled state, .string reads); runtime invariant oracles",
 )
 
 GROWTH_MAX = 3          # "zero growth" threshold calibrated in DESIGN.md (a real recursion shows >= d)
@@ -1444,9 +1462,72 @@ def run_state_stream(ctx):
                           expected=rep, observed=bad[:6], model=rep, stream="state", no_failing_input=True)
 
 
+# --------------------------------------------------------------------------------------
+# stream "reads": for which tags does a search read the `.string` property? (the only tree-dependent call of matching)
+# --------------------------------------------------------------------------------------
+QUERIES = [
+    # (protocol: name, other, attrs, str), kwargs factory
+    (("1", "0", "-", "1"), lambda: dict(name="a", string="x")),
+    (("2", "0", "-", "1"), lambda: dict(name="b", string=_RX)),
+    (("-", "1", "-", "1"), lambda: dict(name=True, string="x")),
+    (("-", "2", "-", "1"), lambda: dict(name=_RX, string="x")),
+    (("-", "2", "-", "1"), lambda: dict(name=(lambda t: False), string="x")),
+    (("-", "1", "-", "1"), lambda: dict(name=(lambda t: True), string=lambda s: True)),
+    (("-", "0", "-", "1"), lambda: dict(string="x")),
+    (("-", "0", "1", "1"), lambda: dict(attrs={"class": "c"}, string="x")),
+    (("1", "0", "1", "1"), lambda: dict(name="a", attrs={"class": "c"}, string="t")),
+    (("1", "0", "-", "0"), lambda: dict(name="a")),
+    (("-", "0", "1", "0"), lambda: dict(attrs={"class": "c"})),
+    (("1", "0", "-", "1"), lambda: dict(name="a", string="x", limit=10 ** 6)),
+]
+
+
+def run_reads_stream(ctx):
+    from .common import Driver
+    from bs4.element import Tag
+    r = ctx.rng("reads")
+    n = ctx.n(150, 1500)
+    orig = Tag.__dict__["string"]
+    log = []
+    Tag.string = property(lambda self: (log.append(id(self)), orig.fget(self))[1], orig.fset)
+    lines, reals, cases = [], [], []
+    try:
+        for t in range(n):
+            raw = r.random() < 0.5
+            ev = gen_bushy_events(r, raw)
+            h = build_raw(ev, False) if raw else build_parsed(ev)
+            toks = events_tokens(ev, False)
+            pos, stack, i = {}, [h.root], 0
+            while stack:
+                e = stack.pop()
+                pos[id(e)] = i
+                i += 1
+                if isinstance(e, Tag):
+                    stack.extend(reversed(e.contents))
+            for qi in r.sample(range(len(QUERIES)), 4):
+                proto, mk = QUERIES[qi]
+                del log[:]
+                h.root.find_all(**mk())
+                reals.append(",".join(str(x) for x in sorted(pos[i] for i in set(log))) or "-")
+                lines.append("c11 reads %s %s" % (" ".join(proto), toks))
+                cases.append({"stream": "reads", "query": qi, "events": toks, "build": "raw" if raw else "parsed"})
+            teardown_h(h)
+    finally:
+        Tag.string = orig
+    replies = Driver().ask(lines)
+    for got, rep, case in zip(reals, replies, cases):
+        ctx.case(("reads", case["events"], case["query"]) if got != "-" else None)
+        ctx.count("reads:" + ("some" if got != "-" else "none"))
+        if got != rep:
+            ctx.corr_disagreements += 1
+            ctx.violation("the tags whose .string a search reads differ from the Lean mirror of matches_tag's exits", case=case,
+                          expected=rep, observed=got, model=rep, stream="reads", no_failing_input=True)
+
+
 def run(ctx):
     from .common import REPO
     if ctx.lean is None or ctx.lean.driver_ok:
+        run_reads_stream(ctx)
         run_events_stream(ctx)
         run_state_stream(ctx)
     ctx.rule = ("one case = (operation, shape family, construction) with the operation measured at every depth of the tier and "
